@@ -605,3 +605,36 @@ func VH_C06_ScanTwice(sk, ewd, chunk int) {
 	}
 	vReach("scanned repeatedly")
 }
+
+// VH_C11_DumpReturnsAtStall: a goroutine dump (with or without the blank line
+// after it, with or without a creator), the complete line that ends it and the
+// first extra bytes of the line after that arrive in one delivery, then the
+// producer stalls: the scan returns the finished snapshot without asking for
+// more input, and hands back the ending line and the extra bytes.
+//
+// Run at the real reader buffer size, where one delivery is buffered whole.
+//
+//verif:prop C11
+//verif:realsize
+//verif:param blank 0..1
+//verif:param created 0..1
+//verif:param extra 0..2
+func VH_C11_DumpReturnsAtStall(blank, created, extra int) {
+	sp := &vhStreamSpec{}
+	sp.add(-1, vhJunk("t0", 3), []byte("\n"))
+	sp.goroutine(0, "g0", created == 1)
+	if blank == 1 {
+		sp.add(0, []byte("\n"))
+	}
+	endStart := len(sp.data)
+	sp.add(-1, vhJunk("t1", 3), []byte("\n"))
+	endEnd := len(sp.data)
+	sp.add(-1, vhJunk("t2", 3), []byte("\n"))
+	f := &vhFeeder{data: sp.data, limit: endEnd + extra}
+	w := &vhSink{}
+	snap, suffix, err := ScanSnapshot(f, w, &Opts{})
+	vReach("dump delivered with the start of a later line, producer stalled")
+	vAssert(snap != nil && err == nil, "the finished dump is returned")
+	vAssert(!f.blocked, "the scan returns without asking the stalled producer for more")
+	vAssert(len(suffix) == f.pos-endStart, "the remainder is the line that ended the dump and whatever was read past it")
+}
